@@ -11,6 +11,7 @@ import (
 	"seehuhn.de/go/sfnt/glyph"
 	"seehuhn.de/go/sfnt/opentype/gtab"
 	"seehuhn.de/go/sfnt/verifharness/c06"
+	"seehuhn.de/go/sfnt/verifharness/vlib"
 )
 
 // ---------------------------------------------------------------- running the implementation
@@ -535,8 +536,9 @@ func evalCase(c caseT) (res caseResult, err error) {
 				seq2[i].Adv = w
 			}
 		}
+		seq3 := seq2
 		if dom && !widthPanic && !c.Font.Gpos.Nil {
-			_, dom = c06.Reference(c.Font.Gpos.LL, c.Font.Gdef, gposSel, seq2)
+			seq3, dom = c06.Reference(c.Font.Gpos.LL, c.Font.Gdef, gposSel, seq2)
 		}
 		inDomain := dom && buildable
 		if inDomain {
@@ -544,6 +546,23 @@ func evalCase(c caseT) (res caseResult, err error) {
 			parts[si] = obs
 		} else {
 			parts[si] = "ood"
+		}
+
+		// ---- oracle 0: inside the domain, Layout on the font (built in memory
+		// or read back from the file) is the reference pipeline on the
+		// description: cmap, reference GSUB pass, widths, reference GPOS pass
+		if inDomain && !widthPanic && !selPanic && obs != "panic" {
+			l := vlib.List{vlib.Atom("ok")}
+			for _, g := range seq3 {
+				tx := make([]rune, len(g.Text))
+				for i, r := range g.Text {
+					tx[i] = rune(r)
+				}
+				l = append(l, vlib.L(vlib.Int(g.GID), runesSx(tx), vlib.Int(g.X), vlib.Int(g.Y), vlib.Int(g.Adv)))
+			}
+			if want := vlib.Str(l); want != obs {
+				fail(rs, "c15b-reference", "Layout (%s font) returns %s; the reference pipeline on the font's description gives %s", c.Mode, obs, want)
+			}
 		}
 
 		// ---- oracle 1: the pipeline recomputed step by step equals Layout
